@@ -9,13 +9,13 @@ git checkout -q -- . 2>>$log
 git apply --check "$sd/patch.diff" >>$log 2>&1 || { echo "{\"seed\":\"$(basename $sd)\",\"applies\":false}"; exit 1; }
 git apply "$sd/patch.diff"
 make -j16 >>$log 2>&1; build=$?
-make check -j8 > $sd/make_check.with_patch.log 2>&1; suite=$?
+make -k check -j8 > $sd/make_check.with_patch.log 2>&1; suite=$?
 npass=$(grep -c "^PASS:" $sd/make_check.with_patch.log); nfail=$(grep -c "^FAIL:\|^ERROR:" $sd/make_check.with_patch.log)
 gcc -I$wt/include $sd/demo.c $wt/hwloc/.libs/libhwloc.so -Wl,-rpath,$wt/hwloc/.libs -o /tmp/demo_$$ >>$log 2>&1
-/tmp/demo_$$ >> $log 2>&1; demo_with=$?
+timeout 20 /tmp/demo_$$ >> $log 2>&1; demo_with=$?
 git checkout -q -- .
 make -j16 >>$log 2>&1
 gcc -I$wt/include $sd/demo.c $wt/hwloc/.libs/libhwloc.so -Wl,-rpath,$wt/hwloc/.libs -o /tmp/demo_$$ >>$log 2>&1
-/tmp/demo_$$ >> $log 2>&1; demo_without=$?
+timeout 20 /tmp/demo_$$ >> $log 2>&1; demo_without=$?
 rm -f /tmp/demo_$$
 echo "{\"seed\":\"$(basename $sd)\",\"applies\":true,\"build_rc\":$build,\"suite_rc\":$suite,\"suite_pass\":$npass,\"suite_fail\":$nfail,\"demo_rc_with_patch\":$demo_with,\"demo_rc_without\":$demo_without}" | tee $sd/confirm.json
